@@ -188,8 +188,16 @@ func (o c27Op) String() string {
 	return fmt.Sprintf("%sn%d s%d g%d v%d", r, o.now, o.slot, o.signer, o.variant)
 }
 
-func c27GenOp(t *rapid.T, prevNow uint64, usedSlots []uint64) c27Op {
+func c27GenOp(t *rapid.T, prevNow uint64, usedSlots []uint64, prior []c27Op) c27Op {
 	var o c27Op
+	if len(prior) > 0 && rapid.IntRange(0, 3).Draw(t, "again") == 0 {
+		// come back to an earlier (slot, signer) with a drawn variant, at the same or a nearby slotNow
+		o = prior[rapid.IntRange(0, len(prior)-1).Draw(t, "againIdx")]
+		o.now = c27Shift(o.now, rapid.SampledFrom([]int64{0, 0, 0, 1, -1, 1000, 1001}).Draw(t, "againNow"))
+		o.variant = rapid.IntRange(0, 3).Draw(t, "variant")
+		o.reopen = false
+		return o
+	}
 	switch rapid.IntRange(0, 3).Draw(t, "nowMode") {
 	case 0:
 		o.now = c27Shift(rapid.SampledFrom(c27Anchors).Draw(t, "nowAnchor"), rapid.SampledFrom([]int64{0, 0, 1, -1}).Draw(t, "nowJit"))
@@ -311,7 +319,7 @@ func TestC27Equivocation(t *testing.T) {
 		var used []uint64
 		prevNow := rapid.SampledFrom(c27Anchors).Draw(t, "start")
 		for i := 0; i < n; i++ {
-			o := c27GenOp(t, prevNow, used)
+			o := c27GenOp(t, prevNow, used, ops)
 			ops = append(ops, o)
 			prevNow = o.now
 			used = append(used, o.slot)
